@@ -89,6 +89,12 @@ def gen_case(rng, measure=None, window=None, subpix=None, small=False, max_nd=No
     else:
         bands = ["r", "g", "b"][:nb]
         band = rng.choice(bands)
+    # the right dataset may list its bands in another order than the left one (nothing enforces the same order:
+    # the selected band is looked up by NAME in each image)
+    perm_r = None
+    if nb > 1 and rng.random() < 0.4:
+        perm_r = list(range(nb))
+        rng.shuffle(perm_r)
     mask_l = gen_mask(rng, rows, cols) if rng.random() < 0.55 else None
     mask_r = gen_mask(rng, rows, cols) if rng.random() < 0.55 else None
     dmin, dmax = gen_interval(rng, cols)
@@ -101,7 +107,7 @@ def gen_case(rng, measure=None, window=None, subpix=None, small=False, max_nd=No
         grids = (gmin, gmax)
     return {"measure": measure, "window": window, "subpix": subpix, "rows": rows, "cols": cols,
             "left": left, "right": right, "bands": bands, "band": band, "mask_l": mask_l, "mask_r": mask_r,
-            "disp": [dmin, dmax], "grids": grids}
+            "disp": [dmin, dmax], "grids": grids, "perm_r": perm_r}
 
 
 def case_grids(case):
@@ -133,7 +139,12 @@ def datasets(case):
                                 grids=case["grids"])
     else:
         left = pu.image_dataset(arr(case["left"]), disp=tuple(case["disp"]), mask=case["mask_l"], bands=case["bands"])
-    right = pu.image_dataset(arr(case["right"]), disp=None, mask=case["mask_r"], bands=case["bands"])
+    perm = case.get("perm_r")
+    if perm:
+        right = pu.image_dataset(arr([case["right"][j] for j in perm]), disp=None, mask=case["mask_r"],
+                                 bands=[case["bands"][j] for j in perm])
+    else:
+        right = pu.image_dataset(arr(case["right"]), disp=None, mask=case["mask_r"], bands=case["bands"])
     return left, right
 
 
